@@ -165,7 +165,7 @@ class C14Machine(Machine):
         if tier == 'quick':
             self_L = 9
             return {'runs': self.n_walk() + 1500, 'budget_s': 100, 'batch': 10, 'L': self_L}
-        return {'runs': self.n_walk() + 120000, 'budget_s': 1500, 'batch': 20, 'L': 14, 'exhaustive': False}  # walk to length 14 is exhaustive, the random arms are not
+        return {'runs': self.n_walk() + 600000, 'budget_s': 1500, 'batch': 20, 'L': 14, 'exhaustive': False}  # walk to length 14 is exhaustive, the random arms are not
 
     def n_walk(self):
         return 3 ** self.WALK_PREFIX + 1
